@@ -28,6 +28,10 @@ type CMsg struct {
 	// MayClose (with Over): the message is invalid in a way a server may also treat as fatal - an
 	// ErrorResponse at most, then the connection is closed - instead of skipping it
 	MayClose bool `json:"may_close,omitempty"`
+	// AltFail: a message the property does not settle (a Bind whose number of format codes is neither
+	// 0, 1 nor the number of values): served, or refused like any failing message - one ErrorResponse,
+	// then discarding up to Sync - but never silence or a dropped connection
+	AltFail bool `json:"alt_fail,omitempty"`
 }
 
 func (m CMsg) body() (byte, []byte) {
